@@ -59,8 +59,11 @@ MUTANTS = [
      "                check=True,\n            )\n\n            # Check the command executed correctly\n            if result.returncode == 0:", "                check=False,\n            )\n\n            # Check the command executed correctly\n            if True:", "detect"),
     ("c17-flag-type-check-removed", "C17", "global_definitions.py",
      "        if not isinstance(mnemonics, bool) or not isinstance(operands, bool):", "        if False:", "detect"),
-    ("c17-missing-macro-file-skipped (loud anyway since fix f2bfc4a: the skipped definitions are reported as undefined)", "C17", "jasm_regex/yaml2regex.py",
-     "        for macro_file in self.macros_from_terminal_filepath:\n", "        for macro_file in self.macros_from_terminal_filepath:\n            if not __import__('os').path.isfile(macro_file):\n                continue\n", "silent-ok"),
+    # (a negative control until the workloads had macro libraries the rule does not need: when the skipped file is needed the
+    #  undefined-macro check of fix f2bfc4a is loud anyway; when it is not, the operation returns a verdict although a named
+    #  file is missing - clause 1 of the C17 oracle)
+    ("c17-missing-macro-file-skipped", "C17", "jasm_regex/yaml2regex.py",
+     "        for macro_file in self.macros_from_terminal_filepath:\n", "        for macro_file in self.macros_from_terminal_filepath:\n            if not __import__('os').path.isfile(macro_file):\n                continue\n", "detect"),
     ("c17-timeout-swallowed", "C17", "consumer.py",
      "            logger.error(\"Regex timeout\")\n            raise ValueError(\"Regex timeout\") from exc\n\n        if match_result:",
      "            logger.error(\"Regex timeout\")\n            match_result = None\n\n        if match_result:", "detect"),
